@@ -852,12 +852,18 @@ func (dht *FullRT) getValues(ctx context.Context, key string) (<-chan RecvdVal, 
 	logger.Debugw("finding value", "key", internal.LoggableRecordKeyString(key))
 
 	if rec, err := dht.getLocal(ctx, key); rec != nil && err == nil {
-		select {
-		case valCh <- RecvdVal{
-			Val:  rec.GetValue(),
-			From: dht.h.ID(),
-		}:
-		case <-ctx.Done():
+		// The value store only age-checks on read; validate like records
+		// received from the network (see IpfsDHT.getValues).
+		if err := dht.Validator.Validate(key, rec.GetValue()); err != nil {
+			logger.Debugw("local record verify failed", "key", internal.LoggableRecordKeyString(key), "error", err)
+		} else {
+			select {
+			case valCh <- RecvdVal{
+				Val:  rec.GetValue(),
+				From: dht.h.ID(),
+			}:
+			case <-ctx.Done():
+			}
 		}
 	}
 	peers, err := dht.GetClosestPeers(ctx, key)
